@@ -254,9 +254,17 @@ def rule_window_tiling(ctx: Ctx) -> None:
             else:
                 return ("?", tt)
         return (falsy if falsy is not None else name, truthy if truthy is not None else name)
-    want = {"open": [("price", "open")], "high": [("price", "max(high,price)"), ("price", "max(price,high)")],
-            "low": [("price", "min(low,price)"), ("price", "min(price,low)")], "close": [("price", "price")],
-            "volume": [("aug", "volume+=amount")]}
+    # names of the trade's price and amount: positions 1 and 2 of the (when, price, amount) records the loop iterates
+    P, Q = "price", "amount"
+    for lp_ in [n for n in C.walk_shallow(flush.node) if isinstance(n, ast.For) and "self._trades" in ast.unparse(n.iter)]:
+        rec = lp_.target
+        if isinstance(rec, ast.Tuple) and len(rec.elts) == 2 and isinstance(rec.elts[1], ast.Tuple) and "enumerate" in ast.unparse(lp_.iter):
+            rec = rec.elts[1]
+        if isinstance(rec, ast.Tuple) and len(rec.elts) == 3 and all(isinstance(e, ast.Name) for e in rec.elts):
+            P, Q = rec.elts[1].id, rec.elts[2].id
+    want = {"open": [(P, "open")], "high": [(P, f"max(high,{P})"), (P, f"max({P},high)")],
+            "low": [(P, f"min(low,{P})"), (P, f"min({P},low)")], "close": [(P, P)],
+            "volume": [("aug", f"volume+={Q}")]}
     for k, accepted in want.items():
         got = update_table(k)
         ctx.check(got in accepted, "C19.2", f"{k} aggregates the window's trades correctly", flush, flush.node,
@@ -430,9 +438,21 @@ def rule_row_mapping(ctx: Ctx) -> None:
 # -- C19.4 ------------------------------------------------------------------------------------------------------
 def rule_bom_table(ctx: Ctx) -> None:
     fn = ctx.func("basana.core.event_sources.csv.open_file_with_detected_encoding")
-    tbls = [s for s in A.stores(fn) if isinstance(s.target, ast.Name) and isinstance(s.node, ast.Assign)
-            and isinstance(s.node.value, ast.List) and s.node.value.elts
-            and all(isinstance(e, ast.Tuple) and len(e.elts) == 2 for e in s.node.value.elts)]
+    # the table is whatever the detection loop (the one that calls raw.startswith) iterates: a literal, or a local / module constant
+    dloops = [n for n in C.walk_shallow(fn.node) if isinstance(n, ast.For)
+              and any(isinstance(x, ast.Call) and (A.call_name(x) or "").endswith(".startswith") for x in ast.walk(n))]
+    ctx.require(dloops, "C19.4: BOM detection loop not found")
+    tv = N.expand(fn, dloops[0].iter)
+
+    class _T:
+        pass
+    tbls = []
+    if isinstance(tv, (ast.List, ast.Tuple)) and tv.elts and all(isinstance(e, (ast.Tuple, ast.List)) and len(e.elts) == 2 for e in tv.elts):
+        t_ = _T()
+        t_.node = _T()
+        t_.node.value = tv
+        t_.stmt = dloops[0]
+        tbls = [t_]
     ctx.require(tbls, "C19.4: BOM table not found")
     entries: List[Tuple[bytes, str, str]] = []
     for e in tbls[0].node.value.elts:
